@@ -89,6 +89,12 @@ class View:
         self.length, self.at, self.elt_t, self.distinct = length, at, elt_t, distinct
 
 
+class MemView:
+    """An iterable known only through its membership predicate (order and multiplicity not tracked)."""
+    def __init__(self, pred, elt_t):
+        self.pred, self.elt_t = pred, elt_t
+
+
 # ---------------------------------------------------------------- state
 class State:
     __slots__ = ("env", "heap", "pc", "next_ref", "ghost", "labels")
